@@ -339,11 +339,8 @@ fn predecessor_cases(cfg: &Cfg, rep: &mut Report) {
 
 /// Direct probing of `__check_auth` with several contexts against fewer/more descriptors.
 fn multi_context(cfg: &Cfg, rep: &mut Report) {
-    if cfg.shard != 0 && !cfg.thorough() {
-        return;
-    }
     let mut rng = Rng::for_history(cfg.seed, "C09", cfg.shard, 900_000);
-    let n = cfg.pick(60u64, 600);
+    let n = cfg.pick(40u64, 400);
     for k in 0..n {
         let h = 900_000 + k;
         if !cfg.runs(h) {
